@@ -222,3 +222,24 @@ func init() {
 		return &SliceV{sp: sp, len: ln, cap: ln}
 	}
 }
+
+type goBlocked struct{}
+
+func init() {
+	// vpWaitUntil(cond): in the engine a false condition blocks the current deferred goroutine (it is re-queued and
+	// restarted later); on the main thread it is a deadlock. Natively it polls.
+	intrinsics["vpWaitUntil"] = func(ex *Exec, c *frame, fn *ssa.Function, a []Value) Value {
+		r := ex.call(c, a[0], nil, 0)
+		if ex.branch(r.(*Term)) {
+			return nil
+		}
+		if ex.inPending > 0 {
+			panic(goBlocked{})
+		}
+		panic(pathEnd{"block", "vpWaitUntil on the main thread: condition false (deadlock)"})
+	}
+	intrinsics["vpRunPending"] = func(ex *Exec, c *frame, fn *ssa.Function, a []Value) Value {
+		ex.runPending()
+		return nil
+	}
+}
